@@ -116,5 +116,16 @@ Proof.
   - intros [H1 H2]. apply holds_xfer; assumption.
 Qed.
 
+Lemma validb_f_valid fuel c : validb_f fuel c = true -> valid_f fuel c.
+Proof.
+  destruct c as [s h|s pre ops|e]; cbn [validb_f valid_f]; intros H.
+  - constructor.
+  - destruct s; exact H.
+  - apply andb_prop in H. exact H.
+Qed.
+
+Lemma validb_valid c : validb c = true -> valid c.
+Proof. exact (validb_f_valid explore_fuel c). Qed.
+
 Theorem holds_model c : valid c -> holds c (run_model c) = [].
 Proof. exact (holds_model_f explore_fuel c). Qed.
